@@ -3,5 +3,6 @@ CONSTANTS
   Vary = {"fn", "w"}
   Fns = {"Fprint", "Fprintf", "Fprintln"}
   Shs = {"-"}
+  ScopeAware = FALSE
 INVARIANTS TypeOK Confluent ImportSound Export
 PROPERTIES Stable Terminates
